@@ -23,6 +23,11 @@ TARGETS = {
     "ucl+rr07": {"file": f"{R}/tests/data/minimal.ucl", "format": "uclchem", "grain_model": "rr07", "solver": "odeint", "method": "rosenbrock4"},
     "api": {"binding": {"#CO": 1150.0}, "reactions": [[["H", "H"], ["H2"]], [["H2", "CO"], ["H", "H", "CO"]], [["C", "O"], ["CO"]], [["H+", "e-"], ["H"]], [["He+", "E"], ["He"]],
                           [["#CO"], ["CO"]], [["O", "H"], ["OH"]], [["OH", "H"], ["H2O"]], [["Si", "O"], ["SiO"]]], "required": ["He", "N", "N2", "D"]},
+    # several thermal processes and shielding functions: their order must be the order they were given in
+    "api+thermal": {"reactions": [[["H", "e-"], ["H+", "e-", "e-"]], [["H+", "e-"], ["H"]], [["He", "e-"], ["He+", "e-", "e-"]], [["He+", "e-"], ["He"]],
+                                  [["He+", "e-"], ["He++", "e-", "e-"]], [["He++", "e-"], ["He+"]], [["H", "H"], ["H2"]], [["C", "O"], ["CO"]]],
+                    "cooling": ["RC_HeIII", "CIC_HI", "CEC_HeII", "CIC_HeI", "RC_HII", "CIC_He_2S", "CEC_HI", "RC_HeI", "CIC_HeII", "RC_HeII", "CEC_HeI"],
+                    "shielding": {"CO": "VB88Table", "H2": "L96Table"}},
 }
 EXPLICIT = {"elements": ["e", "E", "H", "D", "He", "C", "N", "O", "Si"], "pseudo": ["CR", "CRP", "PHOTON", "CRPHOT", "Photon", "g", "o", "p", "m"]}
 OTHERS = [
@@ -54,7 +59,7 @@ def run(res, info):
                 "descriptions relying on the default lists (known finding); histories of up to 4 constructions for the global-table model")
     res.assumptions = ["dates and project version are masked", "exploration, not proof, for everything CPython's hashing decides"]
     seeds = [0, 1, 12345] + ([rng.randrange(1 << 30)] if res.tier == "thorough" else [])
-    names = list(TARGETS) if res.tier == "thorough" else ["kida", "leeds+hh93", "api", "krome+commons"]
+    names = list(TARGETS) if res.tier == "thorough" else ["kida", "leeds+hh93", "api", "krome+commons", "api+thermal"]
     for name in names:
         desc = dict(TARGETS[name], **EXPLICIT)
         case = {"kind": "c17", "target": name}
